@@ -179,6 +179,8 @@ impl ReadXml for Maybe<Candidate> {
         };
         let mut name = None;
         let mut reject_policy = false;
+        // anything besides the name and a bare `then reject` means this is not one of ours
+        let mut other_content = false;
         loop {
             match reader.read_resolved_event()? {
                 (ResolveResult::Bound(XNM), Event::Start(tag))
@@ -200,6 +202,11 @@ impl ReadXml for Maybe<Candidate> {
                             }
                             (_, Event::Comment(_)) => continue,
                             (_, Event::End(tag)) if tag == end => break,
+                            (_, Event::Start(tag)) => {
+                                other_content = true;
+                                _ = reader.read_to_end(tag.to_end().name())?;
+                            }
+                            (_, Event::Empty(_) | Event::Text(_)) => other_content = true,
                             (ns, event) => {
                                 tracing::error!(?event, ?ns, "unexpected xml event");
                                 return Err(ReadError::UnexpectedXmlEvent(event.into_owned()));
@@ -209,13 +216,18 @@ impl ReadXml for Maybe<Candidate> {
                 }
                 (_, Event::Comment(_)) => continue,
                 (_, Event::End(tag)) if tag == end => break,
+                (_, Event::Start(tag)) => {
+                    other_content = true;
+                    _ = reader.read_to_end(tag.to_end().name())?;
+                }
+                (_, Event::Empty(_)) => other_content = true,
                 (ns, event) => {
                     tracing::error!(?event, ?ns, "unexpected xml event");
                     return Err(ReadError::UnexpectedXmlEvent(event.into_owned()));
                 }
             }
         }
-        if reject_policy {
+        if reject_policy && !other_content {
             Ok(Self(Some((
                 name.ok_or(ReadError::MissingElement {
                     msg_type: "policy-statement",
